@@ -23,6 +23,8 @@ use crate::shape::shape_of;
 use crate::tape::Tape;
 use crate::world::FaultPlan;
 use crate::world::GenCfg;
+use crate::tape::Stream;
+use crate::world::{Entry, Form, Item, Lang, ModuleDesc, H_A};
 
 pub fn spec() -> CheckSpec {
   CheckSpec {
@@ -179,11 +181,13 @@ pub fn reachable_code(shape: &Shape) -> std::collections::BTreeSet<String> {
         }
       }
       Some(SlotShape::Err { .. }) => {}
-      None => {
-        if let Some(t) = shape.redirects.get(&s) {
-          work.push(t.clone());
-        }
-      }
+      None => {}
+    }
+    // a specifier can be an entry and a redirect source at once (the loader
+    // redirected it to something that answered with it as final specifier):
+    // the redirect was made on the way to the entry, it is not an orphan
+    if let Some(t) = shape.redirects.get(&s) {
+      work.push(t.clone());
     }
   }
   seen
@@ -219,11 +223,13 @@ pub fn reachable_all(shape: &Shape) -> std::collections::BTreeSet<String> {
         }
       }
       Some(SlotShape::Err { .. }) => {}
-      None => {
-        if let Some(t) = shape.redirects.get(&s) {
-          work.push(t.clone());
-        }
-      }
+      None => {}
+    }
+    // a specifier can be an entry and a redirect source at once (the loader
+    // redirected it to something that answered with it as final specifier):
+    // the redirect was made on the way to the entry, it is not an orphan
+    if let Some(t) = shape.redirects.get(&s) {
+      work.push(t.clone());
     }
   }
   seen
@@ -241,6 +247,39 @@ pub fn run_case(tape: &mut Tape, _tier: Tier, _p: &CaseParams) -> CaseOutcome {
   // no lockfile: which request meets a mismatching checksum first (direct, or
   // through an alias that bypasses it) is C05's subject, not pruning's
   crate::checks::worlds::strip_lockfile(&mut world);
+  if tape.draw(Stream::World, 8) == 7 {
+    // a specifier that is both a redirect source and an entry: y redirects
+    // (explicitly) to x, and x is served with y as its final specifier, so
+    // the module is stored under y. It has a type-only and a code import.
+    let y = format!("{}loop_y.ts", H_A);
+    let x = format!("{}loop_x.ts", H_A);
+    let mut d = ModuleDesc::new(y.clone(), Lang::Ts);
+    d.items.push(Item::new(Form::TypeOnly, "./loop_types.ts"));
+    d.items.push(Item::new(Form::SideEffect, "./loop_dep.ts"));
+    let bytes = d.render();
+    world.add_desc(ModuleDesc::new(format!("{}loop_types.ts", H_A), Lang::Ts));
+    world.add_desc(ModuleDesc::new(format!("{}loop_dep.ts", H_A), Lang::Ts));
+    world.remote.insert(y.clone(), Entry::Redirect(x.clone()));
+    world.remote.insert(
+      x,
+      Entry::Module {
+        bytes,
+        headers: vec![],
+        final_url: Some(y.clone()),
+      },
+    );
+    let importer = world
+      .roots
+      .first()
+      .and_then(|r| world.descs.get(r))
+      .filter(|d| d.lang.is_script() && !d.lang.is_declaration())
+      .cloned();
+    if let Some(mut imp) = importer {
+      imp.items.push(Item::new(Form::SideEffect, y));
+      world.add_desc(imp);
+      out.count("probe.entry_that_is_also_a_redirect_source", 1);
+    }
+  }
   let mut sem = SemOpts::draw(tape);
   sem.with_locker = false;
   sem.kind = 0;
